@@ -74,6 +74,14 @@ CHECKS = {
              "and TOP combined with OFFSET/FETCH.",
         note="Reference tail grammars for MySQL/PostgreSQL/SQL Server/Oracle are the trusted base; SQLite is executed.",
         ref="DESIGN.md section 4 C09"),
+    "C16": dict(
+        technique="runtime differential: build over T_old then replace_table vs the same recipe built over T_new, for every zoo entry and clause slot",
+        text="Every Term subclass/variant found in the live modules (the zoo) x operand slot x table pair (plain/aliased/schema/None), "
+             "directly and nested under every other entry, and every clause slot of 28 statement shapes x 6 dialect classes: "
+             "replace_table(T_old, T_new) must render exactly like the same construction over T_new, the receiver must be "
+             "unchanged and third tables untouched. Held on the executions observed.",
+        note="Renderings compared under namespace-forced generic and MySQL contexts.",
+        ref="DESIGN.md section 4 C16"),
     "C17": dict(
         technique="direct contract monitors (eq/hash/set membership) over an exhaustive variant product; field/table collection vs construction",
         text="All ordered pairs of 336 table variants and of builder/aliased-query/CTE/schema variants are checked for eq=>hash, "
